@@ -250,6 +250,7 @@ func init() {
 			in := c.reachPred([]string{"net/packet.(*Packet).UnPack", "net/packet.(*Packet).Pack"}, "net/packet")
 			obs := c.TLGObs(in, in, false)
 			obs = append(obs, c.frameMaxObs()...)
+			obs = append(obs, filterObs(c.AcceptsLegitLengths(), func(o core.Ob) bool { return strings.Contains(o.Key, "net/packet") })...)
 			obs = append(obs, c.Pools("net/packet")...)
 			obs = append(obs, c.ThresholdPlumbing()...)
 			obs = append(obs, c.UnpackAssigns()...)
